@@ -6,6 +6,7 @@ import os
 import re
 
 import json
+import math
 
 import numpy as np
 
@@ -115,6 +116,8 @@ def base_structure(case):
     classification must not depend on how their atoms are listed either"""
     fn = case["file"]
     thin = case.get("thin_purines")
+    if case.get("align"):
+        return aligned_structure(fn, case["align"])
     if not thin:
         return corpus.structure(fn)
     key = (fn, json.dumps(thin))
@@ -142,6 +145,78 @@ def base_structure(case):
 
         _thin_cache[key] = gen3d.rebuild(s3, atom_keep=ak if plan else None)
     return _thin_cache[key]
+
+
+_contacts_cache = {}
+
+
+def base_contacts(fn):
+    """(residue index, atom index, residue index, atom index) of every N/O base-atom pair of two different residues
+    closer than 3.4 A (the donor-acceptor contacts an annotation rests on), in file order"""
+    if fn not in _contacts_cache:
+        s3 = corpus.structure(fn)
+        pts, owner = [], []
+        for ri, r in enumerate(s3.residues):
+            for k, a in enumerate(r.atoms):
+                if "'" not in a.name and a.name[0] in "NO" and not a.name.startswith("OP") and a.name not in ("O1P", "O2P", "O3P"):
+                    pts.append((a.x, a.y, a.z))
+                    owner.append((ri, k))
+        out = []
+        if pts:
+            from scipy.spatial import cKDTree
+
+            for i, j in sorted(cKDTree(np.array(pts)).query_pairs(3.4)):
+                if owner[i][0] != owner[j][0]:
+                    out.append(owner[i] + owner[j])
+        _contacts_cache[fn] = out
+    return _contacts_cache[fn]
+
+
+_aligned_cache = {}
+
+
+def aligned_structure(fn, align):
+    """the corpus structure in an orientation where the two atoms of one base-base contact have EXACTLY the same x, y or
+    z (axis drawn; rotated about that axis by a drawn angle besides), written on the 0.001 A grid of a coordinate file:
+    what one contact in a few thousand looks like in deposited files, and every contact of an idealised planar model.
+    The structure so obtained is the INPUT; its annotation is compared with that of a generically moved copy of itself"""
+    key = (fn, json.dumps(align))
+    if key not in _aligned_cache:
+        s3 = corpus.structure(fn)
+        contacts = base_contacts(fn)
+        if not contacts:
+            _aligned_cache[key] = s3
+            return s3
+        ri, ka, rj, kb = contacts[align[0] % len(contacts)]
+        axis, theta = align[1] % 3, float(align[2])
+        a, b = s3.residues[ri].atoms[ka], s3.residues[rj].atoms[kb]
+        v = np.array([b.x - a.x, b.y - a.y, b.z - a.z])
+        u = v / np.linalg.norm(v)
+        w = np.zeros(3)
+        w[(axis + 1) % 3] = 1.0
+        # rotation taking u to w (Rodrigues), then a turn by theta about the chosen axis: the contact stays normal to it
+        c = float(np.dot(u, w))
+        if c < -0.999999:
+            R0 = -np.eye(3)
+            R0[axis, axis] = 1.0
+        else:
+            x = np.cross(u, w)
+            K = np.array([[0, -x[2], x[1]], [x[2], 0, -x[0]], [-x[1], x[0], 0]])
+            R0 = np.eye(3) + K + K @ K / (1 + c)
+        e = np.zeros(3)
+        e[axis] = 1.0
+        K = np.array([[0, -e[2], e[1]], [e[2], 0, -e[0]], [-e[1], e[0], 0]])
+        R = (np.eye(3) + math.sin(theta) * K + (1 - math.cos(theta)) * K @ K) @ R0
+        pa = R @ np.array([a.x, a.y, a.z])
+        t = np.zeros(3)
+        t[axis] = 0.0002 - (pa[axis] % 0.001)  # both atoms well inside one cell of the grid along that axis
+        out = gen3d.rebuild(s3, point_fn=lambda xyz, r_, k_: R @ xyz + t, round_to=3)
+        qa, qb = out.residues[ri].atoms[ka], out.residues[rj].atoms[kb]
+        if (qa.x, qa.y, qa.z)[axis] != (qb.x, qb.y, qb.z)[axis]:
+            raise HarnessError("aligned contact does not coincide on its axis")
+        _aligned_cache.clear()  # one structure at a time is enough
+        _aligned_cache[key] = out
+    return _aligned_cache[key]
 
 
 def transform(case):
@@ -195,7 +270,7 @@ def transform(case):
 def oracle_transform(case):
     fn = case["file"]
     fg = case["find_gaps"]
-    ref = original(fn, fg) if not case.get("thin_purines") else normalise(annotate(base_structure(case), fg))
+    ref = original(fn, fg) if not (case.get("thin_purines") or case.get("align")) else normalise(annotate(base_structure(case), fg))
     s3n, ident_map, chain_map = transform(case)
     got = normalise(annotate(s3n, fg), ident_map, chain_map)
     # identities in `ref` are the original ones already
@@ -529,6 +604,8 @@ def classify(case):
             labs.append("renumbering-onto-insertion-codes")
         if case["find_gaps"]:
             labs.append("find_gaps")
+        if case.get("align"):
+            labs.append("input-with-a-contact-exactly-normal-to-an-axis")
         nontrivial = bool(info.get("nt")) and len(labs) > 1
     else:
         nontrivial = bool(info.get("nt"))
@@ -605,6 +682,7 @@ def plan(tier, seed):
         specs += [{"kind": "formats-moved", "files": corpus.SMALL, "examples": 12, "seed": seed * 1000 + 500 + k} for k in range(8)]
         specs += [{"kind": "altloc-order", "files": corpus.SMALL[:8], "examples": 10, "seed": seed * 1000 + 600 + k} for k in range(4)]
         specs += [{"kind": "disorder-copies", "files": corpus.SMALL[:8], "examples": 10, "seed": seed * 1000 + 650 + k} for k in range(4)]
+        specs += [{"kind": "aligned", "files": [f], "max_contacts": 36, "axes": 1, "seed": seed} for f in corpus.SMALL[:8]]
     else:
         files = corpus.SMALL + corpus.MEDIUM + ["4qln.cif", "6g90_1.cif"]
         specs = [{"kind": "transform", "files": files, "examples": 150, "seed": seed * 1000 + k} for k in range(48)]
@@ -612,6 +690,7 @@ def plan(tier, seed):
         specs += [{"kind": "formats-moved", "files": corpus.SMALL + corpus.MEDIUM, "examples": 150, "seed": seed * 1000 + 500 + k} for k in range(16)]
         specs += [{"kind": "altloc-order", "files": corpus.SMALL + corpus.MEDIUM, "examples": 80, "seed": seed * 1000 + 600 + k} for k in range(16)]
         specs += [{"kind": "disorder-copies", "files": corpus.SMALL + corpus.MEDIUM, "examples": 60, "seed": seed * 1000 + 650 + k} for k in range(8)]
+        specs += [{"kind": "aligned", "files": [f], "max_contacts": 400, "axes": 3, "seed": seed} for f in corpus.SMALL + corpus.MEDIUM[:4]]
     return specs
 
 
@@ -638,6 +717,22 @@ def run_shard(spec) -> ShardResult:
     elif spec["kind"] == "transform":
         run_hypothesis(PROP_ID, st_transform(files), oracle, seed=spec["seed"], max_examples=spec["examples"], result=res,
                        to_json=to_json, classify=classify, shrink=False)
+    elif spec["kind"] == "aligned":
+        # every base-base contact of the file in turn (up to max_contacts, spread evenly) made exactly normal to an axis;
+        # the moved copy is one fixed generic rotation (no coordinate of any contact coincides after it)
+        q = np.array([0.23 + 0.01 * (spec["seed"] % 7), -0.41, 0.67, 0.58])
+        rot = gen3d.quat_rot(tuple(q / np.linalg.norm(q))).tolist()
+        for f in files:
+            n = len(base_contacts(f))
+            step = max(1, n // spec["max_contacts"])
+            for idx in range(0, n, step):
+                for ax in range(spec["axes"]):
+                    case = {"kind": "transform", "file": f, "rot": rot, "shift": [3.217, -11.043, 7.581], "atom_perm_seed": None, "rename_chains": "",
+                            "renumber": [1, 0], "find_gaps": False, "icode_runs": 0, "thin_purines": None,
+                            "align": [idx, (idx + ax + spec["seed"]) % 3, 0.3 + 0.37 * idx]}
+                    check_case(PROP_ID, oracle, case, res, to_json=to_json)
+                    nt, labs = classify(case)
+                    res.note_case(to_json(case), nt, labs, sample_cap=1)
     else:
         for f in files:
             for null in ("?", "."):
